@@ -2,6 +2,7 @@ package gen
 
 import (
 	"bytes"
+	"fmt"
 	"go/ast"
 	"go/parser"
 	"go/token"
@@ -39,6 +40,8 @@ var Dict = func() [][]byte {
 		[]byte("https://%41.com/"), []byte("https:///path"), []byte("https:"), []byte("HTTPS://EXAMPLE.COM"), []byte("http://example.com./"), []byte("https://xn--/"), []byte("https://*.example.com/"),
 		[]byte("https://abcdefghijklmnop.onion"), []byte("http://abcdefghijklmnop.onion:80/"), []byte("ldaps://[fe80::1%25eth0]/"), []byte("file:///etc/passwd"), []byte("data:,x"), []byte("?"), []byte("#"),
 		[]byte("a@xn--.com"), []byte("a@[127.0.0.1]"), []byte("\"a b\"@example.com"), []byte("a@b@c.com"), []byte("a@.com"), []byte("@example.com"), []byte(".example.com@"),
+		append([]byte{0xff, 0xfe}, bytes.Repeat([]byte{0x65, 0x00}, 100)...), append([]byte{0xfe, 0xff}, bytes.Repeat([]byte{0x00, 0x65}, 100)...), append([]byte{0xff, 0xfe}, []byte{0x65, 0x00, 0x81, 0xcc}...),
+		append([]byte{0xef, 0xbb, 0xbf}, []byte("with a UTF-8 byte order mark")...), {0x00, 0x00, 0xfe, 0xff, 0x00, 0x00, 0x00, 0x41}, {0xff, 0xfe}, {0xfe, 0xff},
 		[]byte("100%25 real.example.com"), []byte("%s%d%v%!"), []byte("a%b.example.com"),
 		[]byte("Private Organization"), []byte("Government Entity"), []byte("private organization"), []byte("V1.0, Clause 5.(b)"), []byte("V1.0, Clause 5.(x)"),
 		bytes.Repeat([]byte("a"), 65), bytes.Repeat([]byte("a"), 129), bytes.Repeat([]byte("b"), 300), bytes.Repeat([]byte{0xC3, 0xA9}, 40), bytes.Repeat([]byte("x"), 32769),
@@ -430,7 +433,7 @@ func leafKind(n *dt.Node) int {
 }
 
 // numGeneric is the size of the generic (string-ish) part of the edit table.
-var numGeneric = len(Dict) + 3*len(edgeBytes) + 6 + len(stringTags) + len(otherTags) + len(typedValues)
+var numGeneric = len(Dict) + 3*len(edgeBytes) + 9 + len(stringTags) + len(otherTags) + len(typedValues)
 
 // NumLeafEdits is the largest per-leaf edit count (random editors draw below it; an
 // index beyond a leaf's own count wraps around).
@@ -601,8 +604,18 @@ func ApplyLeafEdit(n *dt.Node, k int) string {
 	case k == 5:
 		n.Content = append(c, 0x00)
 		return "append"
+	case k == 6:
+		n.Content = bytes.ToLower(c)
+		return "lower-case"
+	case k == 7:
+		n.Content = bytes.ToUpper(c)
+		return "upper-case"
+	case k == 8:
+		// padded with blanks on both sides
+		n.Content = append(append([]byte{0x20}, c...), 0x20)
+		return "blank-padded"
 	}
-	k -= 6
+	k -= 9
 	if k < len(stringTags) {
 		if n.Class == 0 {
 			n.Tag = stringTags[k]
@@ -619,7 +632,7 @@ func ApplyLeafEdit(n *dt.Node, k int) string {
 
 // NumInnerEdits is the size of the deterministic structural edit table of an inner
 // (constructed or wrapped) node.
-const NumInnerEdits = 14
+const NumInnerEdits = 19
 
 // ApplyInnerEdit applies structural edit k (0 <= k < NumInnerEdits) to an inner
 // node: its encoded body cut to 1 or 2 octets or shortened by one (a truncated TLV
@@ -702,12 +715,18 @@ func ApplyInnerEdit(n *dt.Node, k int) string {
 			n.Constructed = false
 		}
 		return "primitive-bit"
-	default:
+	case 13:
 		if len(n.Children) > 0 && !n.Wrapped {
 			c := n.Children[0]
 			*n = *c.Clone()
 		}
 		return "hoist-first-child"
+	default:
+		// a trailing element nobody expects: a private-class element with a high tag number, a context [1]
+		// element, a NULL, an element whose length overruns the enclosing value, a long-form length of zero
+		junk := [][]byte{{0xdf, 0x21, 0x01, 0x00}, {0x81, 0x00}, {0x05, 0x00}, {0x04, 0x05, 0x00}, {0x04, 0x81, 0x00}}[k-14]
+		raw(append(append([]byte{}, body...), junk...))
+		return fmt.Sprintf("trailing-junk-%x", junk)
 	}
 }
 
